@@ -313,6 +313,12 @@ def known_match(ctx, info, stage):
         if k.get("status") != "open" or k.get("property") != ctx.prop:
             continue
         m = k.get("match", {})
+        # a finding is identified by what its entry says; an entry with a criterion this matcher does not
+        # know (or with none) suppresses nothing
+        if not m or any(key not in ("invariant", "profile", "observed_re", "op", "st", "msg_re", "event_re", "line_re") for key in m):
+            continue
+        if "line_re" in m and not re.search(m["line_re"], info["trace"][info["line_in_trace"] - 1]):
+            continue
         if "invariant" in m and m["invariant"] != info["invariant"]:
             continue
         if "profile" in m and json.loads(info["trace"][0]).get("profile") != m["profile"]:
